@@ -44,22 +44,28 @@ def connMatrix (uniq : List Int) (ML : List Pair) : Nat → Nat → Bool :=
 def edgesOf (n : Nat) (M : Nat → Nat → Bool) : List (Nat × Nat) :=
   (List.range n).flatMap fun i => ((List.range n).filter fun j => M i j).map fun j => (i, j)
 
+/-- a component label for every node.  (A structure, not a bare function: a definition returning a
+    bare closure is eta-expanded by the compiler, which would re-evaluate `a`, `b` below at every
+    call and make label look-ups exponential in the number of edges.) -/
+structure Labels where
+  get : Nat → Nat
+
 /-- merge the component of `e.1` into the component of `e.2` -/
-def mergeStep (lab : Nat → Nat) (e : Nat × Nat) : Nat → Nat :=
-  let a := lab e.1
-  let b := lab e.2
-  fun v => let l := lab v; if l == a then b else l
+def mergeStep (lab : Labels) (e : Nat × Nat) : Labels :=
+  let a := lab.get e.1
+  let b := lab.get e.2
+  ⟨fun v => let l := lab.get v; if l == a then b else l⟩
 
 /-- a component label for every node of the undirected graph with adjacency matrix `M` -/
-def compLabels (n : Nat) (M : Nat → Nat → Bool) : Nat → Nat :=
-  (edgesOf n M).foldl mergeStep id
+def compLabels (n : Nat) (M : Nat → Nat → Bool) : Labels :=
+  (edgesOf n M).foldl mergeStep ⟨id⟩
 
 /-- `csgraph.breadth_first_order(M, s, directed=False, return_predecessors=False)` as a set:
     the nodes `< n` connected to `s`, listed in increasing order -/
 def bfsReach (n : Nat) (M : Nat → Nat → Bool) (s : Nat) : List Nat :=
   let lab := compLabels n M
-  let ls := lab s
-  (List.range n).filter fun v => lab v == ls
+  let ls := lab.get s
+  (List.range n).filter fun v => lab.get v == ls
 
 /-- `itertools.combinations(l, r=2)` -/
 def pairs {β : Type} : List β → List (β × β)
